@@ -42,6 +42,40 @@ def hookOfJson (j : Json) : Hook :=
            else some ((jarr r).map (fun kv => (keyOfJson (jidx kv 0), valOfJson (jidx kv 1)))),
     raises := jbool (jfield j "raises") }
 
+partial def rawOfJson (j : Json) : RawVal :=
+  match j with
+  | .obj _ =>
+    let has (k : String) : Option Json := (j.getObjVal? k).toOption
+    if let some v := has "rawref" then .ref (jstrs (jidx v 0)) (splitDot (jstr (jidx v 1))) (jbool (jidx v 2))
+    else if let some v := has "rawmacro" then .macro (jstr v)
+    else if let some v := has "l" then .list ((jarr v).map rawOfJson)
+    else if let some v := has "t" then .tuple ((jarr v).map rawOfJson)
+    else if let some v := has "d" then .dict ((jarr v).map (fun kv => (rawOfJson (jidx kv 0), rawOfJson (jidx kv 1))))
+    else .lit (valOfJson j)
+  | _ => .lit (valOfJson j)
+
+partial def stmtOfJson (j : Json) : Stmt :=
+  let line := jnat (jfield j "line")
+  match jstr (jfield j "k") with
+  | "bind" => .binding (splitScope (jstr (jfield j "scope"))) (splitDot (jstr (jfield j "sel")))
+      (jstr (jfield j "arg")) (rawOfJson (jfield j "val")) line
+  | "block" => .block (splitScope (jstr (jfield j "scope"))) (splitDot (jstr (jfield j "sel"))) line
+  | "import" => .imp (jstr (jfield j "module")) (jbool (jfield j "found")) line
+  | "include" =>
+    let f := jfield j "file"
+    .incl (jstr (jfield j "name")) (if jisNull f then none else some ((jarr f).map stmtOfJson)) line
+  | _ => .syntaxErr line
+
+def skipOfJson (j : Json) : SkipSpec :=
+  match jstr (jfield j "k") with
+  | "all" => .all
+  | "names" => .names (jstrs (jfield j "v"))
+  | _ => .no
+
+partial def parsedToJson : Parsed → Json
+  | .node name imports includes =>
+    Json.arr #[.str name, strs imports, .arr (includes.map parsedToJson).toArray]
+
 partial def opOfJson (op : Json) : Op :=
   match jstr (jfield op "op") with
   | "register" =>
@@ -53,6 +87,7 @@ partial def opOfJson (op : Json) : Op :=
         sig := sigOfJson (jfield op "sig"), allow := jstrs (jfield op "allow"),
         deny := jstrs (jfield op "deny"), listTypesOk := jbool (jfield op "listTypesOk"),
         objId := jnat (jfield op "obj"), isMethod := jbool (jfield op "method"),
+        isClass := jbool (jfield op "cls"),
         methods := (jstrs (jfield op "methods")).map splitDot }
   | "bind" =>
     let locJ := jfield op "loc"
@@ -79,6 +114,18 @@ partial def opOfJson (op : Json) : Op :=
   | "macrolookup" => .macroLookup (jstr (jfield op "name"))
   | "singleton" => .singleton (jstr (jfield op "key")) (jbool (jfield op "ctor"))
   | "enter" => .enter (jstrs (jfield op "cur")) (scopeArgOfJson (jfield op "arg"))
+  | "parse" =>
+    let f := jfield op "file"
+    .parse (if jisNull f then none else some (jstr f)) (skipOfJson (jfield op "skip"))
+      ((jarr (jfield op "stmts")).map stmtOfJson)
+  | "parsefiles" =>
+    .parseFiles (skipOfJson (jfield op "skip"))
+      ((jarr (jfield op "files")).map (fun f =>
+        let c := jidx f 1
+        (jstr (jidx f 0), if jisNull c then none else some ((jarr c).map stmtOfJson))))
+      ((jarr (jfield op "bindings")).map stmtOfJson) (jbool (jfield op "finalize"))
+  | "resolve" => .resolve (jstrs (jfield op "prefixes")) (jstrs (jfield op "readers")) (jbool (jfield op "abs"))
+      ((jarr (jfield op "present")).map (fun x => (jstr (jidx x 0), jstr (jidx x 1))))
   | "unlock" => .unlock ((jarr (jfield op "body")).map opOfJson) (jbool (jfield op "raises"))
   | "locked" => .observe "locked"
   | other => .observe other
@@ -95,7 +142,13 @@ partial def outToJson : Out → Json
   | .flag b => ok (.bool b)
   | .scope s => ok (strs s)
   | .names l => ok (strs (sortStrs l))
+  | .pair a b => ok (strs [a, b])
   | .body outs => ok (Json.mkObj [("body", .arr (outs.map outToJson).toArray)])
+  | .parsed includes imports =>
+    ok (Json.mkObj [("includes", .arr (includes.map parsedToJson).toArray), ("imports", strs imports)])
+  | .failed f =>
+    Json.mkObj [("err", .str f.err.name),
+      ("chain", .arr (f.chain.map (fun c => Json.arr #[(match c.1 with | some n => .str n | none => .null), toJson c.2])).toArray)]
   | .locs l =>
     let rows := l.map (fun x => (joinScope x.1.1 ++ "|" ++ joinDot x.1.2 ++ "." ++ x.2.1,
       (x.2.2.file.getD "bindings string") ++ ":" ++ toString x.2.2.line))
